@@ -73,3 +73,59 @@ Extraction "model_print.ml" pp_stmts f64_display float_text render_with_comments
 
 (* C17: the positioned translator and the template scanner *)
 Extraction "model_pos.ml" ptranslate erase_stmt translate src_positions_of_stmt tpl_positions_of_stmt shift_stmt tpl_placedb tpl_startsb tpl_scan.
+(* C17, run-time half: the positioned VM (pos/PVm.v) on the positioned translation; appended at the END of Extract.v *)
+From Ucg Require Import pos.PVm pos.PVm_Lemmas pos.PVm_Locality.
+
+(* the positioned machine on the positioned translation of a positioned program *)
+Definition pvm_run_prog (fuel : nat) (envv : list (bytes * bytes)) (strict_ : bool) (p : pprog) :=
+  pvm_prog b64_ops fuel envv strict_ (ptranslate p).
+(* the position-free machine of vm/Vm.v on the erased program (for the erasure self-check of the driver) *)
+Definition vm_run_erased (fuel : nat) (envv : list (bytes * bytes)) (strict_ : bool) (p : pprog) :=
+  vm_prog b64_ops fuel envv strict_ (translate (map erase_stmt p)).
+Definition erase_binding (kv : bytes * (pval b64_ops * pos)) := (fst kv, erase_v (fst (snd kv))).
+
+(* the run with every op labelled by its index (theorem pvm_blame_index): which op is blamed *)
+Definition pvm_blame_run (fuel : nat) (envv : list (bytes * bytes)) (strict_ : bool) (p : pprog) :=
+  let code := ptranslate p in pvm_prog_at b64_ops (index_dummy code) fuel envv strict_ (index_code code).
+
+(* the side condition [scoped] of pvm_locality_translated for every top-level statement (a theorem: ptranslate_scoped), and the statement that is executing at
+   depth 0 when the error surfaces (by running statement after statement with pvm_run_until) *)
+Definition stmt_bounds (p : pprog) : list nat :=
+  (fix go (acc : nat) (l : list pstmt) : list nat :=
+     match l with [] => [] | s :: l' => let e := acc + List.length (ptranslate_stmt s) in e :: go e l' end) 0 p.
+Definition scoped_all (p : pprog) : bool :=
+  let code := ptranslate p in
+  (fix go (lo : nat) (l : list pstmt) : bool :=
+     match l with [] => true | s :: l' => let hi := lo + List.length (ptranslate_stmt s) in scopedb code lo hi && go hi l' end) 0 p.
+Fixpoint failing_stmt_from (code : pops) (strict_ : bool) (envv : list (bytes * bytes)) (fuel : nat)
+         (st : pstate b64_ops) (k : nat) (bounds : list nat) : option nat :=
+  match bounds with
+  | [] => None
+  | hi :: rest =>
+    match pvm_run_until b64_ops code strict_ envv pos0 hi fuel st with
+    | POk st' => failing_stmt_from code strict_ envv fuel st' (S k) rest
+    | PErr _ _ _ => Some k
+    | _ => None
+    end
+  end.
+Definition failing_stmt (fuel : nat) (envv : list (bytes * bytes)) (strict_ : bool) (p : pprog) : option nat :=
+  failing_stmt_from (ptranslate p) strict_ envv fuel (pinit_state b64_ops) 0 (stmt_bounds p).
+
+(* the value stack is empty at every statement boundary the run reaches (hypothesis [pstk st0 = []] of pvm_locality_translated) *)
+Fixpoint boundaries_clean_from (code : pops) (strict_ : bool) (envv : list (bytes * bytes)) (fuel : nat)
+         (st : pstate b64_ops) (bounds : list nat) : bool :=
+  match bounds with
+  | [] => true
+  | hi :: rest =>
+    match pvm_run_until b64_ops code strict_ envv pos0 hi fuel st with
+    | POk st' =>
+      (if Nat.eqb (ppc st') hi then match pstk st' with [] => true | _ :: _ => false end else true)
+      && boundaries_clean_from code strict_ envv fuel st' rest
+    | _ => true
+    end
+  end.
+Definition boundaries_clean (fuel : nat) (envv : list (bytes * bytes)) (strict_ : bool) (p : pprog) : bool :=
+  boundaries_clean_from (ptranslate p) strict_ envv fuel (pinit_state b64_ops) (stmt_bounds p).
+
+Extraction "model_pvm.ml" boundaries_clean failing_stmt scoped_all pvm_blame_run pvm_run_prog vm_run_erased erase_binding ptranslate shift_stmt shift_pos
+  src_positions_of_stmt tpl_positions_of_stmt.
